@@ -67,6 +67,8 @@ def gen_cases(seed, n):
             k = rng.below(8)
             if k == 0 and "mul" in op:
                 a, b = gen_pair_mul_band(rng)
+            elif k in (2, 3) and ("mul" in op or "square" in op):
+                a, b = gen_pair_limbs(rng)
             elif k == 1:   # sums/differences that cross a carry boundary by ±1
                 a = gen_word(rng)
                 t = rng.choice([1 << 64, (1 << 64) - 0xFFFFFFFF, P, 2 * P, (1 << 64) + 0xFFFFFFFF]) + rng.below(5) - 2
@@ -129,6 +131,7 @@ def run(tier, seed):
     drv, err = build_driver()
     if err:
         res.broken.append(("model driver build", err))
+        drv = NO_MODEL
     flavours = ["O1"] if tier == "quick" else ["O1", "O3", "asan"]
     for fl in flavours:
         h, err = build_harness(fl)
